@@ -98,7 +98,7 @@ func runC15(c *ShardCtx) {
 				}
 				// what i means for a Unicode class item is C01's concern (finding
 				// D17b there); here the reference is consulted for all other classes
-				refOK := !(cls.Class.IgnoreCase && hasUnicode(cls))
+				refOK := true
 				var da, db []string
 				if refOK {
 					da, _ = core.Compare(ref, a, pt, "", core.CmpOpts{SkipNoMatch: true})
